@@ -106,4 +106,45 @@ RowOK(e) ==
      \* mean charge level (1e-4 per vehicle for the rounding); no vehicles: no value (-1)
   \cup (IF X.vehicles = 0 THEN (IF Field(row, "soc") # -1 THEN {SV("avg_soc_percent", which \o "/no_vehicles", e.i)} ELSE {})
         ELSE IF SAbs(Field(row, "soc") * X.vehicles - X.soc_sum) > 2 * X.vehicles THEN {SV("avg_soc_percent", which, e.i)} ELSE {})
+
+(***************************************************************************)
+(* The summary of the run (summary_stats.json, from StatsHandler): figures *)
+(* of the END state and running totals of the per-step observations.       *)
+(* Hs: history kept by the trace specification from the global "stats"     *)
+(* lines - acts[a]: vehicle-steps observed in activity a; vkt[a], nmv[a]:  *)
+(* metres / number of the move events reported for activity a.             *)
+(***************************************************************************)
+Hs0 == [acts |-> <<>>, vkt |-> <<>>, nmv |-> <<>>]
+LOCAL SBump(f, keys, D(_)) == [x \in DOMAIN f \cup keys |-> (IF x \in DOMAIN f THEN f[x] ELSE 0) + D(x)]
+HsNext(Hs, e) ==
+  IF e.k # "stats" \/ e.fleet # "" THEN Hs
+  ELSE [acts |-> SBump(Hs.acts, {e.veh[i].act : i \in DOMAIN e.veh}, LAMBDA a : SCount(e.veh, LAMBDA v : v.act = a)),
+        vkt  |-> SBump(Hs.vkt, {e.moves[i].state : i \in DOMAIN e.moves}, LAMBDA a : SSum(e.moves, LAMBDA r : r.state = a, LAMBDA r : r.m)),
+        nmv  |-> SBump(Hs.nmv, {e.moves[i].state : i \in DOMAIN e.moves}, LAMBDA a : SCount(e.moves, LAMBDA r : r.state = a))]
+
+LOCAL At(f, k) == IF k \in DOMAIN f THEN f[k] ELSE 0
+SummaryOK(Hs, adds, cancels, e) ==
+  IF "fin" \notin DOMAIN e THEN {} ELSE
+  LET sm == e.summary  veh == e.fin.veh  st == e.fin.st
+      n == Len(veh)  ns == Len(st)
+      names == {a \in DOMAIN Hs.acts : Hs.acts[a] > 0} \cup DOMAIN Hs.vkt
+      Near(x, y, tol) == SAbs(x - y) <= tol
+  IN (IF sm.nveh # n THEN {SV("final_vehicle_count", "summary", n)} ELSE {})
+  \cup (IF n > 0 /\ ~Near(sm.soc * n, SSum(veh, LAMBDA v : TRUE, LAMBDA v : v.soc), 2 * n) THEN {SV("mean_final_soc", "summary", n)} ELSE {})
+  \cup (IF ~Near(sm.fleet_rev, SSum(veh, LAMBDA v : TRUE, LAMBDA v : v.bal), n + 1) THEN {SV("fleet_revenue_dollars", "summary", n)} ELSE {})
+  \cup (IF ~Near(sm.station_rev, SSum(st, LAMBDA x : TRUE, LAMBDA x : x.bal), ns + 1) THEN {SV("station_revenue_dollars", "summary", ns)} ELSE {})
+  \cup (IF ~Near(sm.kwh_exp, SSum(veh, LAMBDA v : v.kind = "electric", LAMBDA v : v.spent), n + 1) THEN {SV("total_kwh_expended", "summary", n)} ELSE {})
+  \cup (IF ~Near(sm.gge_exp, SSum(veh, LAMBDA v : v.kind = "gasoline", LAMBDA v : v.spent), n + 1) THEN {SV("total_gge_expended", "summary", n)} ELSE {})
+  \cup (IF ~Near(sm.kwh_disp, SSum(st, LAMBDA x : TRUE, LAMBDA x : x.disp_e), ns + 1) THEN {SV("total_kwh_dispensed", "summary", ns)} ELSE {})
+  \cup (IF ~Near(sm.gge_disp, SSum(st, LAMBDA x : TRUE, LAMBDA x : x.disp_g), ns + 1) THEN {SV("total_gge_dispensed", "summary", ns)} ELSE {})
+     \* share of the admitted requests that were not cancelled (1e-4)
+  \cup (IF (IF adds > 0 THEN ~Near(sm.served * adds, (adds - cancels) * 10000, adds) ELSE sm.served # 0)
+        THEN {SV("requests_served_percent", "summary", adds)} ELSE {})
+     \* per activity: share of the observed vehicle-steps (1e-4), distance of the move events reported for it
+  \cup (IF {sm.vstate[i][1] : i \in DOMAIN sm.vstate} # names THEN {SV("vehicle_state", "activities_listed", Cardinality(names))} ELSE {})
+  \cup {SV("vehicle_state", "observed_percent", sm.vstate[i][1]) : i \in {i \in DOMAIN sm.vstate :
+          LET tot == SSum([j \in 1..Len(sm.vstate) |-> sm.vstate[j]], LAMBDA x : TRUE, LAMBDA x : At(Hs.acts, x[1])) IN
+          tot > 0 /\ tot < 200000 /\ ~Near(sm.vstate[i][2] * tot, At(Hs.acts, sm.vstate[i][1]) * 10000, tot)}}
+  \cup {SV("vehicle_state", "vkt", sm.vstate[i][1]) : i \in {i \in DOMAIN sm.vstate :
+          ~Near(sm.vstate[i][3], At(Hs.vkt, sm.vstate[i][1]), At(Hs.nmv, sm.vstate[i][1]) + 1)}}
 =============================================================================
